@@ -522,8 +522,12 @@ def compressed_runs(run, ct, rng, quick):
             run.nontrivial(("compressed", net.eq(), str(net.dims), mz, chi_opt, rng.random()))
             try:
                 with core.watchdog(180):
+                    # (post-processing of the trials - annealing the compressed tree - must leave the COMPRESSED figures recorded)
+                    post = rng.choice([{}, {}, {"simulated_annealing_opts": {"tsteps": 3, "numiter": 5, "seed": rng.randrange(1000)}},
+                                       {"simulated_annealing_opts": {}}])
+                    d["post"] = str(post)
                     opt = ct.HyperCompressedOptimizer(chi=chi_opt, minimize=mz, methods=["greedy-compressed", "greedy-span"],
-                                                      max_repeats=3, parallel=False, optlib="random", on_trial_error="raise")
+                                                      max_repeats=3, parallel=False, optlib="random", on_trial_error="raise", **post)
                     tree = opt.search(net.c_inputs(), net.c_output(), net.c_sizes())
                     chi = chi_opt if chi_opt is not None else max(net.dims) ** 2
                     st = tree.compressed_contract_stats(chi=chi, compress_late=False)
@@ -535,7 +539,7 @@ def compressed_runs(run, ct, rng, quick):
             want = {"flops": st.flops, "write": st.write, "size": getattr(st, SIZEKEY[mz])}
             for k_, w_ in want.items():
                 if b.get(k_) != w_:
-                    run.violation(f"HyperCompressedOptimizer(chi={chi_opt}, minimize={mz}): recorded {k_} of the winning trial "
+                    run.violation(f"HyperCompressedOptimizer(chi={chi_opt}, minimize={mz}, {d.get('post')}): recorded {k_} of the winning trial "
                                   f"{b.get(k_)} != {w_} of the returned tree at chi={chi} | eq={net.eq()} dims={net.dims} "
                                   f"(networks asked about in this process before: {[n_.eq() for n_ in seqn[:seqn.index(net)]]})", d,
                                   tags={"mode:compressed", "figures"})
